@@ -180,6 +180,7 @@ NATURAL = {
     "nan_len": [["set", "line", 1, "length_km", "nan"]],
     "no_sc": [["set", "ext_grid", 0, "s_sc_max_mva", "nan"]],
     "gen_conflict": [["gen", 0, 0.5, 0.97, "wide", False, True]],
+    "diverge_m4": [["load", 2, 500., 80., "P", 1., True]],      # N-0 converges, some N-1 cases do not
 }
 
 
@@ -202,6 +203,11 @@ def _est(net):
 def _cont(net):
     from pandapower.contingency import run_contingency
     run_contingency(net, {"line": {"index": list(net.line.index)}})
+
+
+def _cont_raise(net):
+    from pandapower.contingency import run_contingency
+    run_contingency(net, {"line": {"index": list(net.line.index)}}, raise_errors=True)
 
 
 def _contpar(net):
@@ -237,6 +243,7 @@ CALCS = {
     "sc3_bus": _sc(case="max", fault="3ph", bus=2, inverse_y=False),
     "estimate": _est,
     "contingency": _cont,
+    "contingency_raise": _cont_raise,
     "contingency_par1": _contpar,
 }
 NEEDS_PRIOR_PF = {"runpp_results"}
@@ -265,7 +272,8 @@ PAIRS_QUICK = (
     [("R3dc", c, nat) for c in ["runpp", "rundcpp", "sc3max", "sc1"] for nat in ["no_slack", "diverge", "nan_len", "no_sc", "gen_conflict"]] +
     [("T3tab", c, nat) for c in ["runpp", "sc3max"] for nat in ["no_slack", "diverge", "no_sc"]] +
     [("R3opfdc", "runopp", nat) for nat in ["no_slack", "diverge"]] +
-    [("M4dc", "contingency", "diverge")]
+    [("M4dc", "contingency", "diverge"), ("M4", "contingency_raise", "none"), ("M4", "contingency_raise", "diverge_m4"),
+     ("M4", "contingency", "diverge_m4")]
 )
 
 
